@@ -17,7 +17,7 @@ verus! {
 #[verifier::external_body] #[verifier::accept_recursive_types(K)] #[verifier::accept_recursive_types(V)] pub struct HashMap<K, V> { _p: core::marker::PhantomData<(K, V)> }
 #[verifier::external_body] #[verifier::accept_recursive_types(T)] pub struct RangeSet<T> { _p: core::marker::PhantomData<T> }
 #[verifier::external_body] #[verifier::accept_recursive_types(T)] pub struct Intersection<'a, T> { _p: core::marker::PhantomData<&'a T> }
-#[verifier::external_body] pub struct Tag { _p: u8 }
+#[verifier::external_body] #[derive(Clone, Copy)] pub struct Tag { _p: u8 }
 #[verifier::external_body] pub struct Fixed { _p: u8 }
 #[verifier::external_body] pub struct PatchUri { _p: u8 }
 
@@ -62,6 +62,8 @@ impl<K, V> HashMap<K, V> {
     #[verifier::external_body]
     pub fn get<'a>(&'a self, k: &K) -> (r: Option<&'a V>)
         ensures r is Some == self@.dom().contains(*k), r is Some ==> *r->Some_0 == self@[*k] { unimplemented!() }
+    #[verifier::external_body]
+    pub fn insert(&mut self, k: K, v: V) -> (r: Option<V>) ensures final(self)@ == old(self)@.insert(k, v) { unimplemented!() }
     // ASSUMED (std): iteration visits every (key, value) of the map, in some order
     #[verifier::external_body]
     pub fn iter<'a>(&'a self) -> (r: MapIter<'a, K, V>)
@@ -69,6 +71,14 @@ impl<K, V> HashMap<K, V> {
             forall|i: int| 0 <= i < r.rem().len() ==> self@.dom().contains((#[trigger] r.rem()[i]).0) && self@[r.rem()[i].0] == r.rem()[i].1,
             forall|k: K| self@.dom().contains(k) ==> exists|i: int| 0 <= i < r.rem().len() && (#[trigger] r.rem()[i]).0 == k,
     { unimplemented!() }
+}
+impl<K, V> Default for HashMap<K, V> {
+    #[verifier::external_body]
+    fn default() -> (r: Self) ensures r@ == Map::<K, V>::empty() { unimplemented!() }
+}
+impl<K, V> Clone for HashMap<K, V> {
+    #[verifier::external_body]
+    fn clone(&self) -> (r: Self) ensures r@ == self@ { unimplemented!() }
 }
 #[verifier::external_body] #[verifier::accept_recursive_types(K)] #[verifier::accept_recursive_types(V)]
 pub struct MapIter<'a, K, V> { _p: core::marker::PhantomData<&'a (K, V)> }
@@ -89,8 +99,14 @@ impl<'a> RsIntersection<'a, Fixed> {
     #[verifier::external_body]
     pub fn next(&mut self) -> (r: Option<core::ops::RangeInclusive<Fixed>>) ensures r.is_some() == old(self).nonempty() { unimplemented!() }
 }
+// stands for `a.intersection(b).collect::<RangeSet<Fixed>>()` (ASSUMED: the collected set has exactly the common points)
+#[verifier::external_body]
+pub fn collect_rs_intersection(a: &RangeSet<Fixed>, b: &RangeSet<Fixed>) -> (r: RangeSet<Fixed>)
+    ensures forall|x: Fixed| r.mem(x) == (a.mem(x) && b.mem(x)) { unimplemented!() }
 impl RangeSet<Fixed> {
     pub uninterp spec fn mem(&self, x: Fixed) -> bool;
+    #[verifier::external_body]
+    pub fn is_empty(&self) -> (r: bool) ensures r == (forall|x: Fixed| !self.mem(x)) { unimplemented!() }
     // ASSUMED (the intersection iterator; bounded Kani unit U14.5i): it yields a range iff the two sets share a point
     #[verifier::external_body]
     pub fn intersection<'a>(&'a self, other: &'a RangeSet<Fixed>) -> (r: RsIntersection<'a, Fixed>)
@@ -232,11 +248,45 @@ impl DesignSpace {
 }
 
 impl SubsetDefinition {
-    // ASSUMED (loop over a HashMap collecting RangeSet intersections): the design space both sides share
-    #[verifier::external_body]
-    fn design_space_intersection(&self, other_design_space: &DesignSpace) -> (r: DesignSpace)
+//@extract source=pm container="impl SubsetDefinition" fn=design_space_intersection ret=r
+//@rewrite "in other_ranges {" => "in other_ranges.iter() {"
+//@rewrite "input_segments.intersection(entry_segments).collect()" => "collect_rs_intersection(input_segments, entry_segments)"
+//@desugarfor nth=0 name=verif_it raw
+//@spec
         ensures forall|t: Tag, x: Fixed| r.has(t, x) == (self.design_space.has(t, x) && other_design_space.has(t, x))
-    { unimplemented!() }
+//@at before "let mut verif_it ="
+                let ghost mut n: int = 0;
+//@at after "let mut verif_it = other_ranges.iter();"
+                let ghost all = verif_it.rem();
+//@at loop "let mut verif_it ="
+                    invariant
+                        0 <= n <= all.len(), verif_it.rem() == all.skip(n),
+                        forall|i: int| 0 <= i < all.len() ==> other_ranges@.dom().contains((#[trigger] all[i]).0) && other_ranges@[all[i].0] == all[i].1,
+                        forall|k: Tag| other_ranges@.dom().contains(k) ==> exists|i: int| 0 <= i < all.len() && (#[trigger] all[i]).0 == k,
+                        // result holds, for the keys seen so far, exactly the non-empty pointwise intersections
+                        forall|t: Tag, x: Fixed| (result@.dom().contains(t) && #[trigger] result@[t].mem(x)) ==>
+                            self_ranges@.dom().contains(t) && other_ranges@.dom().contains(t) && self_ranges@[t].mem(x) && other_ranges@[t].mem(x),
+                        forall|j: int, x: Fixed| 0 <= j < n && self_ranges@.dom().contains((#[trigger] all[j]).0)
+                            && self_ranges@[all[j].0].mem(x) && #[trigger] all[j].1.mem(x) ==> result@.dom().contains(all[j].0) && result@[all[j].0].mem(x),
+                    ensures n == all.len()
+                    decreases all.len() - n
+//@at after "else { break; };"
+                    proof {
+                        assert(all.skip(n)[0] == all[n]);
+                        assert(all.skip(n).skip(1) == all.skip(n + 1));
+                        n = n + 1;
+                    }
+//@at loop-after "let mut verif_it ="
+                proof {
+                    assert forall|t: Tag, x: Fixed| (result@.dom().contains(t) && result@[t].mem(x))
+                        == (self_ranges@.dom().contains(t) && self_ranges@[t].mem(x) && other_ranges@.dom().contains(t) && other_ranges@[t].mem(x)) by {
+                        if self_ranges@.dom().contains(t) && self_ranges@[t].mem(x) && other_ranges@.dom().contains(t) && other_ranges@[t].mem(x) {
+                            let i = choose|i: int| 0 <= i < all.len() && (#[trigger] all[i]).0 == t;
+                            assert(all[i].1.mem(x));
+                        }
+                    }
+                }
+//@end
     // C19 "the largest intersection": what IntersectionInfo measures is the component-wise intersection of the entry's definition
     // with the requested one
 //@extract source=pm container="impl SubsetDefinition" fn=intersection ret=r
